@@ -1,10 +1,199 @@
-import AcraModel.Basic.Bytes
-/-! Driver ops for C05. -/
+import AcraModel.Censor.Chain
+import AcraModel.Censor.Session
+import AcraModel.Censor.Match
+/-! Driver ops for C05 (acra-censor): the very definitions `Props/C05.lean` is about. -/
 namespace Driver.C05
-open AcraModel
+open AcraModel AcraModel.Censor
+
+/-! ## trees on the wire: `L<hex>` leaf, `N<Kind>:<k>` node followed by k subtrees, comma separated -/
+
+partial def parseTree : List String → Option (Tree × List String)
+  | [] => none
+  | tok :: rest =>
+    if tok.startsWith "L" then
+      (ofHex (tok.drop 1).toString).map fun b => (Tree.leaf b, rest)
+    else if tok.startsWith "N" then
+      match (tok.drop 1).toString.splitOn ":" with
+      | [k, n] => do
+        let n ← n.toNat?
+        let rec kids (n : Nat) (toks : List String) (acc : List Tree) : Option (List Tree × List String) :=
+          match n with
+          | 0 => some (acc.reverse, toks)
+          | n + 1 => do
+            let (t, toks') ← parseTree toks
+            kids n toks' (t :: acc)
+        let (ks, rest') ← kids n rest []
+        pure (Tree.node k ks, rest')
+      | _ => none
+    else none
+
+def treeOfToken (s : String) : Option Tree :=
+  match parseTree (s.splitOn ",") with
+  | some (t, []) => some t
+  | _ => none
+
+partial def tokenOf : Tree → String
+  | .leaf b => "L" ++ hexOf b
+  | .node k ks => ",".intercalate (s!"N{k}:{ks.length}" :: ks.map tokenOf)
+
+def txt (hex : String) : Option String := (ofHex hex).map bytesStr
+
+def sem : Sem Tree Tree := ⟨tablesMatch, Match.patMatch⟩
+
+/-! ## configuration and statement tokens (same line format as the Go op, see harness/internal/c05/ops.go) -/
+
+def takeList (toks : List String) : Option (List String × List String) :=
+  match toks with
+  | n :: rest => do
+    let n ← n.toNat?
+    if rest.length < n then none else pure (rest.take n, rest.drop n)
+  | [] => none
+
+/-- `<rawhex>/<normhex>` → normalised text; `<rawhex>/!` → none (does not parse) -/
+def normOf (tok : String) : Option (Option String) :=
+  match tok.splitOn "/" with
+  | [_, "!"] => some none
+  | [_, n] => (txt n).map some
+  | _ => none
+
+def rawOf (tok : String) : Option String := (tok.splitOn "/").head?.bind txt
+
+def patOf (tok : String) : Option (Option Tree) :=
+  match tok.splitOn "/" with
+  | [_, "!"] => some none
+  | [_, t] => (treeOfToken t).map some
+  | _ => none
+
+def stmtOf (tok : String) : Option (Stmt Tree) :=
+  match tok.splitOn "/" with
+  | [r, "!"] => do pure ⟨← txt r, none⟩
+  | [r, n, t] => do pure ⟨← txt r, some ⟨← txt n, ← treeOfToken t⟩⟩
+  | _ => none
+
+/-- `none` inside = the configuration is rejected by `LoadConfiguration` (a query or pattern does not parse) -/
+def parseHandlers : Nat → List String → Option (Option (List (Handler Tree)) × List String)
+  | 0, toks => some (some [], toks)
+  | n + 1, k :: toks =>
+    let cont (h : Option (Handler Tree)) (rest : List String) := do
+      let (hs, rest') ← parseHandlers n rest
+      pure ((do let h ← h; let hs ← hs; pure (h :: hs)), rest')
+    match k with
+    | "AA" => cont (some .allowAll) toks
+    | "DA" => cont (some .denyAll) toks
+    | "C" => cont (some .capture) toks
+    | "I" => do
+      let (qs, rest) ← takeList toks
+      let raws ← qs.mapM rawOf
+      let norms ← qs.mapM normOf
+      cont (some (.ignore (raws ++ norms.filterMap id))) rest
+    | "A" | "D" => do
+      let (qs, rest) ← takeList toks
+      let (ts, rest) ← takeList rest
+      let (ps, rest) ← takeList rest
+      let norms ← qs.mapM normOf
+      let tabs ← ts.mapM txt
+      let pats ← ps.mapM patOf
+      -- AddQueries / AddPatterns fail on the first text that does not parse
+      let r : Option (Rules Tree) := do
+        let qs ← norms.mapM id
+        let ps ← pats.mapM id
+        pure ⟨qs, tabs, ps⟩
+      cont (r.map fun r => if k == "A" then .allow r else .deny r) rest
+    | _ => none
+  | _, [] => none
+
+def parseCfg (toks : List String) : Option (Option (Cfg Tree) × List String) :=
+  match toks with
+  | ipe :: lg :: nh :: rest => do
+    let nh ← nh.toNat?
+    let (hs, rest') ← parseHandlers nh rest
+    pure (hs.map fun hs => ⟨ipe == "1", lg == "1", hs⟩, rest')
+  | _ => none
+
+def verdictStr : Verdict → String
+  | .allow => "allow"
+  | .deny => "deny"
+
+def hexList (xs : List String) : String := "[" ++ ",".intercalate xs ++ "]"
+
+/-- the session op: events `q:<stmt token>` and `c`; output as the Go op prints it -/
+def session (cfg : Cfg Tree) (evs : List String) : Option String := do
+  let denied (s : Stmt Tree) : Bool := handleQuery sem cfg s == .deny
+  let rec go (pending : List String) (evs : List String) (acc : List String) : Option (List String) :=
+    match evs with
+    | [] => some acc.reverse
+    | ev :: rest =>
+      if ev == "c" then
+        match pending with
+        | [] => go [] rest ("c-=[]" :: acc)
+        | q :: ps => go ps rest (s!"c@{q}={hexList ps}" :: acc)
+      else if ev.startsWith "q:" then do
+        let tok := (ev.drop 2).toString
+        let s ← stmtOf tok
+        let rawHex ← (tok.splitOn "/").head?
+        -- Session.stepQuery with addFirst = false (fact_pg_add_after_censor)
+        let (st, obs) := Session.stepQuery (fun _ => denied s) false ⟨pending⟩ rawHex
+        match obs with
+        | [.forwardDb _] => go st.pending rest (s!"F={hexList st.pending}" :: acc)
+        | _ => go st.pending rest (s!"E={hexList st.pending}" :: acc)
+      else none
+  let out ← go [] evs []
+  pure ("ok " ++ " ".intercalate out)
 
 def handle (op : String) (args : List String) : Option String :=
   match op, args with
+  | "placeholders", [] =>
+    some (" ".intercalate ([Match.selectPattern, Match.unionPattern, Match.insertPattern, Match.updatePattern, Match.deletePattern,
+      Match.subqueryPattern, Match.wherePattern, Match.valuePattern, Match.listOfValuesPattern, Match.columnPattern].map tokenOf))
+  | "match", [p, s] => do
+    match ← patOf p, ← stmtOf s with
+    | some p, ⟨_, some q⟩ => pure (toString (Match.patMatch q.ast p))
+    | _, _ => pure "err"
+  | "tables", n :: rest => do
+    let n ← n.toNat?
+    let ts ← (rest.take n).mapM txt
+    match rest.drop n with
+    | [s] =>
+      match ← stmtOf s with
+      | ⟨_, some q⟩ => let (a, b) := tablesMatch q.ast ts; pure s!"{a} {b}"
+      | _ => pure "err"
+    | _ => none
+  | "handle", toks => do
+    let (cfg, rest) ← parseCfg toks
+    match rest with
+    | [s] =>
+      let s ← stmtOf s
+      match cfg with
+      | none => pure "cfgerr"
+      | some cfg => pure (verdictStr (handleQuery sem cfg s))
+    | _ => none
+  | "pgsession", toks => do
+    let (cfg, rest) ← parseCfg toks
+    match rest with
+    | n :: evs =>
+      let n ← n.toNat?
+      if evs.length != n then none
+      else match cfg with
+        | none => pure "cfgerr"
+        | some cfg => session cfg evs
+    | _ => none
+  | "mysession", toks => do
+    let (cfg, rest) ← parseCfg toks
+    match rest with
+    | n :: evs =>
+      let n ← n.toNat?
+      if evs.length != n then none
+      else match cfg with
+        | none => pure "cfgerr"
+        | some cfg => do
+          let ss ← evs.mapM fun ev => stmtOf (ev.drop 2).toString
+          -- Session.myStep per statement
+          let outs := ss.map fun s =>
+            match Session.myStep (fun _ => handleQuery sem cfg s == .deny) "" with
+            | [.forwardDb _] => "F"
+            | _ => "E"
+          pure (" ".intercalate ("ok" :: outs))
+    | _ => none
   | _, _ => none
 
 end Driver.C05
